@@ -49,7 +49,7 @@ def removed_some(tr, P):
     return any(e[0] == "filter" and e[10] and len(e[8]) < len(e[3]) for e in tr.get("events", []))
 
 
-def infeasible_starts(ctx):
+def infeasible_starts(ctx, boost=1):
     """constructor must reject an infeasible x0 (and one that becomes infeasible after mesh snapping) before any target call"""
     import logging
     import numpy as np
@@ -81,7 +81,7 @@ def infeasible_starts(ctx):
     # numbers) with x0 within a few search-mesh steps of the boundary on either side, linear and log boxes.  Property, both
     # directions: cons(x0) > 0  ==>  ValueError and no target call;  accepted  ==>  the mesh-snapped start is feasible.
     rng = ctx.rng
-    for i in range(120 if ctx.quick else 1200):
+    for i in range((120 if ctx.quick else 1200) * boost):
         D = rng.choice([1, 2, 3])
         t = rng.uniform(-1.5, 1.5)
         scale = rng.choice([1.0, 1.0, 1e-9, 1e3])
@@ -127,7 +127,7 @@ def infeasible_starts(ctx):
     # edge stream: the start within a fraction of a (coarse) search-mesh step of a HARD bound that is not a mesh node, so that snapping
     # leaves the box and the point is pulled back one step; feasible sets that hug the bound (thin slab / ring).  Accepted ==> the point
     # the optimiser will evaluate first is feasible.
-    for i in range(60 if ctx.quick else 600):
+    for i in range((60 if ctx.quick else 600) * boost):
         D = rng.choice([1, 2, 2, 3])
         sgn = rng.choice([2, 3, 4])
         side = rng.choice([1.0, -1.0])
@@ -309,6 +309,23 @@ def tie(ctx, broken):
 
 
 def search(ctx, broken):
+    # the start checks changed (translation / Props/C02src.v / the start-event tie broke): more constructions AIMED at them - starts within a few
+    # mesh steps of the constraint boundary on either side, starts that snap outside the box and are pulled back into a thin feasible slab
+    names = " ".join(n for n, _ in broken)
+    if any(k in names for k in ("translate:filter", "coq_build", "start_checks_source", "theorems_present")):
+        try:
+            from translate import filter as TF
+            defs, ex = TF.current()
+            why = f"translation stopped: {str(ex)[:200]}" if defs is None else "definitions differing from the reference translation: " + ", ".join(TF.diff(defs))
+        except Exception as ex2:   # noqa: BLE001
+            why = f"aim failed: {ex2!r}"
+        ctx.notes.append("search aimed at the start checks: " + why)
+        if "src_stage" not in why or "events" in why or "stopped" in why:
+            n, bad = infeasible_starts(ctx, boost=5)
+            if bad:
+                ctx.violate("infeasible-start-accepted", f"[search aimed at the start checks; {why[:200]}] infeasible starting point not rejected with ValueError "
+                            f"before the first target call: {bad}", dict(kind="construct", cases=bad))
+                return True
     if R.truncate_search(ctx, R.mon_c02):
         return True
     specs = [s for s in S.panel("thorough", ctx.seed + 43) if s.get("cons")][:40]
